@@ -19,24 +19,26 @@ using sim::MVal;
 struct Rec : public jsoncons::json_visitor {
     std::string log;
     uint64_t events = 0;
+    uint64_t cap = 0;      // when set, decoding is stopped (through ec) after this many events: used to probe for amplifying inputs
+    void chk(std::error_code& ec) { if (cap && events > cap) ec = std::make_error_code(std::errc::value_too_large); }
     void put(char k) { log.push_back(k); log.push_back('\n'); ++events; }
     void tagged(char k, jsoncons::semantic_tag t) { log.push_back(k); if (t != jsoncons::semantic_tag::none) { log.push_back('#'); log += std::to_string((int)t); } log.push_back(':'); }
     void bytes(const char* p, size_t n) { log += std::to_string(n); log.push_back(':'); log.append(p, n); log.push_back('\n'); ++events; }
 private:
     void visit_flush() override {}
-    JSONCONS_VISITOR_RETURN_TYPE visit_begin_object(jsoncons::semantic_tag t, const jsoncons::ser_context&, std::error_code&) override { tagged('{', t); log.push_back('\n'); ++events; JSONCONS_VISITOR_RETURN; }
-    JSONCONS_VISITOR_RETURN_TYPE visit_end_object(const jsoncons::ser_context&, std::error_code&) override { put('}'); JSONCONS_VISITOR_RETURN; }
-    JSONCONS_VISITOR_RETURN_TYPE visit_begin_array(jsoncons::semantic_tag t, const jsoncons::ser_context&, std::error_code&) override { tagged('[', t); log.push_back('\n'); ++events; JSONCONS_VISITOR_RETURN; }
-    JSONCONS_VISITOR_RETURN_TYPE visit_end_array(const jsoncons::ser_context&, std::error_code&) override { put(']'); JSONCONS_VISITOR_RETURN; }
-    JSONCONS_VISITOR_RETURN_TYPE visit_key(const string_view_type& s, const jsoncons::ser_context&, std::error_code&) override { log += "k:"; bytes(s.data(), s.size()); JSONCONS_VISITOR_RETURN; }
-    JSONCONS_VISITOR_RETURN_TYPE visit_null(jsoncons::semantic_tag t, const jsoncons::ser_context&, std::error_code&) override { tagged('n', t); log.push_back('\n'); ++events; JSONCONS_VISITOR_RETURN; }
-    JSONCONS_VISITOR_RETURN_TYPE visit_bool(bool v, jsoncons::semantic_tag t, const jsoncons::ser_context&, std::error_code&) override { tagged('b', t); log.push_back(v ? '1' : '0'); log.push_back('\n'); ++events; JSONCONS_VISITOR_RETURN; }
-    JSONCONS_VISITOR_RETURN_TYPE visit_string(const string_view_type& s, jsoncons::semantic_tag t, const jsoncons::ser_context&, std::error_code&) override { tagged('s', t); bytes(s.data(), s.size()); JSONCONS_VISITOR_RETURN; }
-    JSONCONS_VISITOR_RETURN_TYPE visit_byte_string(const jsoncons::byte_string_view& s, jsoncons::semantic_tag t, const jsoncons::ser_context&, std::error_code&) override { tagged('x', t); bytes((const char*)s.data(), s.size()); JSONCONS_VISITOR_RETURN; }
-    JSONCONS_VISITOR_RETURN_TYPE visit_byte_string(const jsoncons::byte_string_view& s, uint64_t raw, const jsoncons::ser_context&, std::error_code&) override { log += "x@" + std::to_string(raw) + ":"; bytes((const char*)s.data(), s.size()); JSONCONS_VISITOR_RETURN; }
-    JSONCONS_VISITOR_RETURN_TYPE visit_uint64(uint64_t v, jsoncons::semantic_tag t, const jsoncons::ser_context&, std::error_code&) override { tagged('u', t); log += std::to_string(v); log.push_back('\n'); ++events; JSONCONS_VISITOR_RETURN; }
-    JSONCONS_VISITOR_RETURN_TYPE visit_int64(int64_t v, jsoncons::semantic_tag t, const jsoncons::ser_context&, std::error_code&) override { tagged('i', t); log += std::to_string(v); log.push_back('\n'); ++events; JSONCONS_VISITOR_RETURN; }
-    JSONCONS_VISITOR_RETURN_TYPE visit_double(double v, jsoncons::semantic_tag t, const jsoncons::ser_context&, std::error_code&) override { tagged('d', t); uint64_t b; std::memcpy(&b, &v, 8); char buf[24]; snprintf(buf, sizeof buf, "%016llx", (unsigned long long)b); log += buf; log.push_back('\n'); ++events; JSONCONS_VISITOR_RETURN; }
+    JSONCONS_VISITOR_RETURN_TYPE visit_begin_object(jsoncons::semantic_tag t, const jsoncons::ser_context&, std::error_code& ec) override { chk(ec); tagged('{', t); log.push_back('\n'); ++events; JSONCONS_VISITOR_RETURN; }
+    JSONCONS_VISITOR_RETURN_TYPE visit_end_object(const jsoncons::ser_context&, std::error_code& ec) override { chk(ec); put('}'); JSONCONS_VISITOR_RETURN; }
+    JSONCONS_VISITOR_RETURN_TYPE visit_begin_array(jsoncons::semantic_tag t, const jsoncons::ser_context&, std::error_code& ec) override { chk(ec); tagged('[', t); log.push_back('\n'); ++events; JSONCONS_VISITOR_RETURN; }
+    JSONCONS_VISITOR_RETURN_TYPE visit_end_array(const jsoncons::ser_context&, std::error_code& ec) override { chk(ec); put(']'); JSONCONS_VISITOR_RETURN; }
+    JSONCONS_VISITOR_RETURN_TYPE visit_key(const string_view_type& s, const jsoncons::ser_context&, std::error_code& ec) override { chk(ec); log += "k:"; bytes(s.data(), s.size()); JSONCONS_VISITOR_RETURN; }
+    JSONCONS_VISITOR_RETURN_TYPE visit_null(jsoncons::semantic_tag t, const jsoncons::ser_context&, std::error_code& ec) override { chk(ec); tagged('n', t); log.push_back('\n'); ++events; JSONCONS_VISITOR_RETURN; }
+    JSONCONS_VISITOR_RETURN_TYPE visit_bool(bool v, jsoncons::semantic_tag t, const jsoncons::ser_context&, std::error_code& ec) override { chk(ec); tagged('b', t); log.push_back(v ? '1' : '0'); log.push_back('\n'); ++events; JSONCONS_VISITOR_RETURN; }
+    JSONCONS_VISITOR_RETURN_TYPE visit_string(const string_view_type& s, jsoncons::semantic_tag t, const jsoncons::ser_context&, std::error_code& ec) override { chk(ec); tagged('s', t); bytes(s.data(), s.size()); JSONCONS_VISITOR_RETURN; }
+    JSONCONS_VISITOR_RETURN_TYPE visit_byte_string(const jsoncons::byte_string_view& s, jsoncons::semantic_tag t, const jsoncons::ser_context&, std::error_code& ec) override { chk(ec); tagged('x', t); bytes((const char*)s.data(), s.size()); JSONCONS_VISITOR_RETURN; }
+    JSONCONS_VISITOR_RETURN_TYPE visit_byte_string(const jsoncons::byte_string_view& s, uint64_t raw, const jsoncons::ser_context&, std::error_code& ec) override { chk(ec); log += "x@" + std::to_string(raw) + ":"; bytes((const char*)s.data(), s.size()); JSONCONS_VISITOR_RETURN; }
+    JSONCONS_VISITOR_RETURN_TYPE visit_uint64(uint64_t v, jsoncons::semantic_tag t, const jsoncons::ser_context&, std::error_code& ec) override { chk(ec); tagged('u', t); log += std::to_string(v); log.push_back('\n'); ++events; JSONCONS_VISITOR_RETURN; }
+    JSONCONS_VISITOR_RETURN_TYPE visit_int64(int64_t v, jsoncons::semantic_tag t, const jsoncons::ser_context&, std::error_code& ec) override { chk(ec); tagged('i', t); log += std::to_string(v); log.push_back('\n'); ++events; JSONCONS_VISITOR_RETURN; }
+    JSONCONS_VISITOR_RETURN_TYPE visit_double(double v, jsoncons::semantic_tag t, const jsoncons::ser_context&, std::error_code& ec) override { chk(ec); tagged('d', t); uint64_t b; std::memcpy(&b, &v, 8); char buf[24]; snprintf(buf, sizeof buf, "%016llx", (unsigned long long)b); log += buf; log.push_back('\n'); ++events; JSONCONS_VISITOR_RETURN; }
 };
 
 // ---------------------------------------------------------------- outcome of one (mode, delivery) execution
@@ -46,6 +48,8 @@ struct Outcome {
     std::string violation;   // non-empty: a C05-class violation observed in this execution (class suffix)
     std::string vdetail;
     uint64_t reads = 0, delivered = 0, peak = 0;
+    uint64_t produced = 0;   // events / value nodes produced: zero-width typed containers legitimately expand a few bytes into many items
+    uint64_t meter_live = 0, meter_at = 0;   // worst (live bytes, delivered bytes) pair seen by the memory meter
     bool stream_failed = false;
     bool idkeys = false;     // the cursor surfaced a non-string map key as an `id` event (the reader's adaptor stringifies such keys)
     std::string key() const { return events + "|E|" + error; }
@@ -84,14 +88,16 @@ struct Delivery {
 struct Meter : sim::ReadHook {
     uint64_t base = 0, worst_excess = 0, worst_at = 0, worst_live = 0; size_t chunk = 0; bool on = false;
     // one input byte can legitimately become one nested container (~350 bytes of value + decoder stack), so the factor is
-    // generous; a length merely *claimed* is 2^20..2^62, orders of magnitude beyond SLACK + FACTOR * supplied
-    static constexpr uint64_t SLACK = 256 * 1024, FACTOR = 1024;
+    // generous; a length merely *claimed* is 2^20..2^62, orders of magnitude beyond SLACK + FACTOR * supplied.
+    // PER_ITEM covers data actually produced (UBJSON $Z/$T/$F containers expand a 10-byte header into up to max_items items).
+    static constexpr uint64_t SLACK = 256 * 1024, FACTOR = 1024, PER_ITEM = 256;
+    static uint64_t allowed(uint64_t delivered, uint64_t chunk, uint64_t produced) { return SLACK + FACTOR * (delivered + chunk) + PER_ITEM * produced; }
     void on_read(uint64_t delivered, uint64_t) override {
         if (!on) return;
         uint64_t live = sim::ledger::live_bytes();
         uint64_t used = live > base ? live - base : 0;
-        uint64_t allowed = SLACK + FACTOR * (delivered + chunk);
-        if (used > allowed && used - allowed > worst_excess) { worst_excess = used - allowed; worst_at = delivered; worst_live = used; }
+        uint64_t a = allowed(delivered, chunk, 0);
+        if (used > a && used - a > worst_excess) { worst_excess = used - a; worst_at = delivered; worst_live = used; }
     }
 };
 
@@ -100,6 +106,7 @@ struct Ctx {
     const MVal* opts = nullptr;            // decode options from the plan
     uint64_t knob = 0;                     // mode parameter (which container for read_to, which predicate)
     bool meter = false;
+    uint64_t cap = 0;                      // event cap for the recording visitor (probe runs)
     sim::Stats* st = nullptr;
 };
 
@@ -138,7 +145,7 @@ void with_source(const Delivery& d, const Ctx& cx, Outcome& out, Fn&& fn) {
             } else fn(jsoncons::stream_source<CharT>(is, d.chunk));   // istreambuf_iterator delivers char: text formats only
         } catch (...) { classify_exception(out, d.kind.c_str()); }
         out.reads = sb.reads; out.delivered = sb.delivered; out.stream_failed = sb.failures_fired > 0;
-        if (meter.worst_excess) { out.violation = "memory-exceeds-delivery"; out.vdetail = "live bytes " + std::to_string(meter.worst_live) + " after only " + std::to_string(meter.worst_at) + " bytes delivered (chunk " + std::to_string(d.chunk) + "): allowed 256KiB + 1024*(delivered+chunk)"; }
+        out.meter_live = meter.worst_live; out.meter_at = meter.worst_at;   // judged by the engine, which knows how many items the input produces
         return;
     }
     try {
@@ -174,13 +181,13 @@ template <class T> struct Modes {
     using CharT = typename T::char_type;
 
     template <class Source> static void reader(Source&& src, const Ctx& cx, Outcome& o) {
-        Rec rec; std::error_code ec;
+        Rec rec; rec.cap = cx.cap; std::error_code ec;
         auto opts = T::make_options(*cx.opts);
         try {
             typename T::template reader_t<typename std::decay<Source>::type> rd(std::move(src), rec, opts);
             rd.read(ec);
-        } catch (...) { o.events = rec.log; throw; }
-        o.events = std::move(rec.log); o.error = ec_str(ec);
+        } catch (...) { o.events = rec.log; o.produced = rec.events; throw; }
+        o.produced = rec.events; o.events = std::move(rec.log); o.error = ec_str(ec);
     }
     template <class Source> static void decoder(Source&& src, const Ctx& cx, Outcome& o) {
         jsoncons::json_decoder<jsoncons::ojson> dec; std::error_code ec;
@@ -188,7 +195,7 @@ template <class T> struct Modes {
         typename T::template reader_t<typename std::decay<Source>::type> rd(std::move(src), dec, opts);
         rd.read(ec);
         o.error = ec_str(ec);
-        if (!ec && dec.is_valid()) { Rec rec; jsoncons::ojson j = dec.get_result(); j.dump(rec); o.events = std::move(rec.log); }
+        if (!ec && dec.is_valid()) { Rec rec; jsoncons::ojson j = dec.get_result(); j.dump(rec); o.produced = rec.events; o.events = std::move(rec.log); }
         else if (!ec) o.events = "<no value>";
     }
     // cursor: next() loop; knob selects read_to at the knob-th container start (0 = never) and a filter predicate
@@ -218,8 +225,8 @@ template <class T> struct Modes {
                 }
             }
             if (!ec) T::cursor_check_done(cur, ec);
-        } catch (...) { o.events = rec.log; throw; }
-        o.events = std::move(rec.log); o.error = ec_str(ec);
+        } catch (...) { o.events = rec.log; o.produced = rec.events; throw; }
+        o.produced = rec.events; o.events = std::move(rec.log); o.error = ec_str(ec);
     }
     static std::function<bool(const jsoncons::staj_event&, const jsoncons::ser_context&)> make_pred(uint64_t knob) {
         switch (knob % 4) {
@@ -249,8 +256,8 @@ template <class T> struct Modes {
                     if (!ec) rec.log += "}\n";
                 } else emit(cur.current(), rec, cur.context());
             }
-        } catch (...) { o.events = rec.log; throw; }
-        o.events = std::move(rec.log); o.error = ec_str(ec);
+        } catch (...) { o.events = rec.log; o.produced = rec.events; throw; }
+        o.produced = rec.events; o.events = std::move(rec.log); o.error = ec_str(ec);
     }
 
     // Execute one (mode, delivery).  All library objects are gone when this returns.
